@@ -9,6 +9,7 @@ GNext == \E c \in Clients :
    \/ \E k \in {"stmt", "last", "copy"} : Request(c, k) /\ H([op |-> "request", c |-> c, a |-> k])
    \/ \E h \in {"clean", "abnormal"} : Leave(c, h) /\ H([op |-> "leave", c |-> c, a |-> h])
    \/ Refused(c) /\ H([op |-> "refused", c |-> c, a |-> ""])
+   \/ \E k \in {"valid", "stale"} : CancelConn /\ H([op |-> "cancel", c |-> c, a |-> k])
 GSpec == Init /\ hist = <<>> /\ [][GNext]_gv
 Emit == (nops = MaxOps) => PrintT(<<"SCENARIO", ToJson(hist)>>)
 =============================================================================
